@@ -223,7 +223,12 @@ def _compare(yaml, text, expected, levels, inp):
         elif expected is not None and a[0] != "ok":
             failures.append(Failure("valid-document-rejected-by-both:%s" % type(a[1]).__name__, exc_msg(a[1])))
     app_py, app_c = custom_pair(yaml)
-    for cname, LP, LC in ((("compose", yaml.Loader, yaml.CLoader), ("compose:customised", app_py, app_c)) if "compose" in levels else ()):
+    # node graphs of every loader pair (the resolver a class is composed with shows in the node tags only): the default pair, the
+    # Base pair (no implicit resolvers) and one of the Safe / Full / Unsafe pairs in rotation, then the customised pair
+    rot = PAIRS[1 + len(text) % 3] if isinstance(text, (str, bytes)) else PAIRS[1]
+    compose_pairs = (("compose", yaml.Loader, yaml.CLoader), ("compose:Base", yaml.BaseLoader, yaml.CBaseLoader),
+                     ("compose:" + rot[0], getattr(yaml, rot[1]), getattr(yaml, rot[2])), ("compose:customised", app_py, app_c))
+    for cname, LP, LC in (compose_pairs if "compose" in levels else ()):
         evals += 2
         a = outcome(lambda: list(yaml.compose_all(inp(), Loader=LP)))
         b = outcome(lambda: list(yaml.compose_all(inp(), Loader=LC)))
